@@ -321,11 +321,15 @@ func (g *gen) genC16() {
 		g.add(&funcs.Class{Prop: "C16", Kind: "joine", Tag: fmt.Sprintf("results:%d", 2+i%2), Outs: g.types(2+i%2, i < 2)})
 	}
 	// ---- join of fmap (monadic bind)
-	for _, t := range []int{0, 1, 2, 4, 6, 7, 8, 9, 11, 12} {
-		g.add(&funcs.Class{Prop: "C16", Kind: "bind", Tag: "results:1:" + funcs.Types[t].Kind, In: g.anyType(), Outs: []int{t}})
+	for i, t := range []int{0, 1, 2, 4, 6, 7, 8, 9, 11, 12} {
+		g.add(&funcs.Class{Prop: "C16", Kind: "bind", Tag: "results:1:" + funcs.Types[t].Kind, In: g.anyType(), Outs: []int{t}, Split: i%2 == 0})
 	}
-	for i := 0; i < 4; i++ {
-		g.add(&funcs.Class{Prop: "C16", Kind: "bind", Tag: fmt.Sprintf("results:%d", 2+i%2), In: g.anyType(), Outs: g.types(2+i%2, i < 3)})
+	for i := 0; i < 6; i++ {
+		g.add(&funcs.Class{Prop: "C16", Kind: "bind", Tag: fmt.Sprintf("results:%d", 2+i%2), In: g.anyType(), Outs: g.types(2+i%2, i < 3), Split: i < 4})
+	}
+	// more multi-result fmap error forms: the only helper that returns a function holding evaluated results
+	for i := 0; i < 6; i++ {
+		g.add(&funcs.Class{Prop: "C16", Kind: "fmape", Tag: fmt.Sprintf("results:%d", 2+i%2), In: g.anyType(), Outs: g.types(2+i%2, false)})
 	}
 	// ---- traverse
 	for _, t := range funcs.Types {
